@@ -135,7 +135,8 @@ def gen_cases(tier, seed):
             steps += [["close", f"g{k}", "rst"], ["await_closed", f"g{k}"]]
         steps += [["sub", "m", 1234], ["pub", "q", 1234, 0, 0, 8], ["round", {"only": ["m", "q"], "seed": r.getrandbits(30), "adv": 0.001}],
                   ["drain", {"adv": 0.001}], ["sub", "q", 1235], ["drain", {"adv": 0.001}]]
-        cases.append({"kind": "mix", "seed": s, "tc": i % 3 == 2, "steps": steps})
+        # half of them with the manager's own log messages published (RTMA_LOG_* travel through the same fan-out)
+        cases.append({"kind": "mix", "seed": s, "tc": i % 3 == 2, "loud": i % 2 == 1, "steps": steps})
     for i in range(n_free):
         cases.append({"kind": "free", "seed": rng.getrandbits(32), "tc": i % 3 == 2, "npub": rng.randint(2, 8),
                       "nsub": rng.randint(2, 4), "nmsg": rng.choice([200, 500, 1200]), "timeout": 60})
@@ -157,6 +158,7 @@ def run_case(case, tier):
     rig = ManagerRig(stepped=True, timecode=bool(case.get("tc")), loud=bool(case.get("loud")))
     try:
         sc = Scenario(rig, case.get("seed", 0))
+        sc.vary_source = True
         sc.run(case["steps"])
         if sc.crashed or sc.hung:
             return {"violations": [{"mech": "manager_died", "detail": (rig.crash or "hung")[-800:]}], "counters": {}}
